@@ -65,6 +65,7 @@ class Prov:
         self.restrict = restrict or {}
         self.upconst = upconst or {}
         self.mutalias = {}
+        self.mutcap = {}     # (closure, local) -> index of the captured variable a &mut local was reborrowed from
         self.defaulted = set()
         self.s1 = {}
         self.s2 = {}
@@ -200,6 +201,11 @@ class Prov:
                 rv = s["rv"]
                 k = rv["k"]
                 new = set()
+                if b.kind == "closure" and not s["place"]["proj"]:
+                    # a copy of a captured reference (`deref_copy (*env).i`): remembers which capture it stands for
+                    pl_ = rv["op"]["place"] if (k == "Use" and rv["op"]["k"] in ("Copy", "Move")) else (rv["place"] if k == "CopyForDeref" else None)
+                    if pl_ is not None and pl_["local"] == 1 and pl_["proj"] and pl_["proj"][-1]["k"] == "Field" and "&mut" in b.local_ty(s["place"]["local"]):
+                        self.mutcap[(b.key, s["place"]["local"])] = pl_["proj"][-1]["i"]
                 if k in ("Use", "Cast", "Repeat", "WrapUnsafeBinder"):
                     new |= self.op_tags(b, rv["op"])
                     if self.mark_inner and rv["op"]["k"] in ("Copy", "Move"):
@@ -215,6 +221,12 @@ class Prov:
                         src = rv["place"]["local"]
                         src = self.mutalias.get((b.key, src), src) if any(p["k"] == "Deref" for p in rv["place"]["proj"]) else src
                         self.mutalias[(b.key, s["place"]["local"])] = src
+                        if b.kind == "closure" and rv["place"]["local"] == 1:
+                            fld = [p_["i"] for p_ in rv["place"]["proj"] if p_["k"] == "Field"]
+                            if fld:
+                                self.mutcap[(b.key, s["place"]["local"])] = fld[0]
+                        elif (b.key, rv["place"]["local"]) in self.mutcap and any(p_["k"] == "Deref" for p_ in rv["place"]["proj"]):
+                            self.mutcap[(b.key, s["place"]["local"])] = self.mutcap[(b.key, rv["place"]["local"])]
                 elif k == "BinaryOp":
                     pass  # scalar results carry no provenance of interest
                 elif k == "Aggregate":
@@ -398,6 +410,15 @@ class Prov:
                         if j != i:
                             others |= x
                     self._set((b.key, tgt), others)
+                    # the mutated thing is a variable captured by &mut: the mutation is visible in the creating body
+                    ci = self.mutcap.get((b.key, a["place"]["local"]))
+                    if ci is not None and b.kind == "closure":
+                        cr = b.creator()
+                        if cr is not None and ci < len(cr[1]):
+                            cb, o = cr[0], cr[1][ci]
+                            if o["k"] in ("Copy", "Move") and not o["place"]["proj"]:
+                                ctgt = self.mutalias.get((cb.key, o["place"]["local"]), o["place"]["local"])
+                                self._set((cb.key, ctgt), others)
         self._flow_to_place(b, dest, res)
 
     def _root_unit(self, b):
